@@ -37,3 +37,32 @@ for _tag, _rows, _tables, _starts in (
                      "len(result[0][%d]) == %d and %s" % (i, len(t), " and ".join("result[0][%d][%d] is ROWS[%d]" % (i, j, r) for j, r in enumerate(t))) for i, t in enumerate(_tables)) if _tables else "len(result[0]) == 0"),
                  ("C16+C18.each_start_row_is_the_spreadsheet_row_of_the_tables_first_row", "result[1] == %r" % (_starts,))],
         defined_props=["C16", "C18"])
+
+
+# ---- excel.cell_get_number / cell_get_string (C16, C18): what a cell means.  A numeric cell is its number; an empty cell, `N.A.` in any case and a cell of dashes
+# mean "no value"; any other text where a number is expected is refused.  A text cell is its stripped text; an empty cell is refused unless allowed.
+def _cell(value, data_type):
+    def make(it):
+        import z3
+        from pyvc.interp import PyObjV
+        from pyvc import source
+
+        V = z3.Real("cell_number")
+        return {"cell": PyObjV("Cell", source.load("excel"), {"value": V if value == "number" else value, "data_type": data_type, "coordinate": "B7"}), "V": V}
+
+    return make
+
+
+for _tag, _value, _dt, _want in (("a_number", "number", "n", "result == V"), ("an_empty_cell", None, "n", "result is None"), ("not_applicable", " N.A. ", "s", "result is None"), ("not_applicable_lower_case", "n.a.", "s", "result is None"),
+                                 ("dashes", " -- ", "s", "result is None"), ("blanks_only", "   ", "s", "result is None")):
+    CONTRACTS["excel:cell_get_number#%s" % _tag] = dict(schema=schema, make_env=_cell(_value, _dt), call_stubs={"dtype": (lambda it, v: v)},
+                                                        ensures=[("C16+C18.a_cell_means_its_number_or_no_value", _want)], defined_props=["C16", "C18"])
+for _tag, _value, _dt in (("text_where_a_number_is_expected", "about 5", "s"), ("a_formula_error_or_other_cell_type", "#DIV/0!", "e"), ("a_boolean_cell", True, "b")):
+    CONTRACTS["excel:cell_get_number#%s" % _tag] = dict(schema=schema, make_env=_cell(_value, _dt), call_stubs={"dtype": (lambda it, v: v)}, raises={"Exception": "True"}, raises_props=["C18"], ensures=[], defined_props=["C16", "C18"])
+_iss = {"sc.isstring": (lambda it, v: isinstance(v, str))}
+for _tag, _value, _allow, _want in (("text", "  Adults ", False, "result == 'Adults'"), ("an_empty_cell_where_allowed", None, True, "result is None")):
+    CONTRACTS["excel:cell_get_string#%s" % _tag] = dict(schema=schema, make_env=(lambda v, a: (lambda it: dict(_cell(v, "s")(it), allow_empty=a)))(_value, _allow), call_stubs=_iss,
+                                                        ensures=[("C16+C18.a_text_cell_means_its_stripped_text", _want)], defined_props=["C16", "C18"])
+for _tag, _value, _allow in (("an_empty_cell_where_text_is_required", None, False), ("a_number_where_text_is_required", 5.0, False), ("a_number_where_text_or_nothing_is_allowed", 5.0, True)):
+    CONTRACTS["excel:cell_get_string#%s" % _tag] = dict(schema=schema, make_env=(lambda v, a: (lambda it: dict(_cell(v, "n")(it), allow_empty=a)))(_value, _allow), call_stubs=_iss,
+                                                        raises={"Exception": "True"}, raises_props=["C18"], ensures=[], defined_props=["C16", "C18"])
